@@ -7,7 +7,8 @@
 //   * the Adapter contract on `AdapterBox`          — unit `pack` (assumed there too), PROVED for MemoryAdapter & wrappers in unit `adapter`
 //   * `Melda::fetch_raw_delta`  (predicate `fetched`) — PROVED in unit `delta`
 //   * `DeltaId::key`                                  — PROVED in unit `delta`
-//   * `Melda::load_raw_delta`, `Delta::to_json_string` — unit `block` (being built); only their SHAPE is assumed, see below
+//   * `Melda::load_raw_delta`, `Delta::to_json_string` — PROVED in unit `block` with richer contracts; only their SHAPE is
+//     assumed here, and `load_raw_delta`'s precondition `inputs_bounded` is NOT established by meld (see the shim)
 //   * std collections seen through content-keyed views, string helpers, sha256 — assumed of std / sha2 as in units pack, delta
 // Modelling assumption: the two replicas own DISTINCT adapters (`AdapterBox` is owned by value in the mirror); melding a
 // replica with another replica that shares the same `Arc<RwLock<Box<dyn Adapter>>>` is not covered.
@@ -215,8 +216,9 @@ pub open spec fn fetched(store: Store, key: Seq<char>, digest: Seq<char>, o: JMa
 /// ASSUMED SHAPE (unit `block`): `d` is the parsed form of the raw block object `raw` under identifier `id`; holds only
 /// if `id` is consistent with the content (`id.index == 1 + max parent index`, `DeltaId::new_from_anchors`).
 pub uninterp spec fn loaded(id: DidV, raw: JMap, d: Delta) -> bool;
-/// ASSUMED SHAPE (unit `block`): the JSON text `serde_json::to_string(&d.to_json())` of a parsed block
-pub uninterp spec fn block_text(d: Delta) -> Seq<u8>;
+/// ASSUMED SHAPE (unit `block`): `b` is (the UTF-8 bytes of) a JSON text `serde_json::to_string(&d.to_json())` of the parsed
+/// block `d`.  A RELATION, as in unit `block` (`is_block_text(d, text)` = the text of SOME object with `is_block_json(d, o)`).
+pub uninterp spec fn is_block_bytes(d: Delta, b: Seq<u8>) -> bool;
 /// a `String` together with its UTF-8 bytes (SOURCE: unit `pack`, `JsonText`)
 #[verifier::external_body]
 pub struct JsonText { s: String }
@@ -228,10 +230,12 @@ impl JsonText {
     { unimplemented!() }
 }
 impl Delta {
-    /// ASSUMED (unit `block`): the text is a function of the parsed block
+    /// ASSUMED; LINK: unit `block` PROVES `Ok(text) => is_block_text(*self, text@)`, `Err(_) => false` for the real body
+    /// (text as Seq<char>); here the String is kept together with its UTF-8 bytes (`JsonText`, as in unit `pack`) and
+    /// `is_block_bytes(d, b)` stands for `exists text. is_block_text(d, text) && b == utf8(text)`.
     #[verifier::external_body]
     pub fn to_json_string(&self) -> (r: Result<JsonText, VxError>)
-        ensures match r { Ok(t) => t.bytes() == block_text(*self), Err(_) => true },
+        ensures match r { Ok(t) => is_block_bytes(*self, t.bytes()), Err(_) => true },
     { unimplemented!() }
 }
 impl Melda {
@@ -245,7 +249,12 @@ impl Melda {
             Err(_) => true,
         },
     { unimplemented!() }
-    /// ASSUMED (unit `block`): `Ok(d)` only for the parsed form of `raw_delta` under a consistent identifier.
+    /// ASSUMED; LINK: unit `block` PROVES `Ok(d) => loaded(b_id@, jm(raw_delta), d) && loadable(..)`, `Err(_) => !loadable(..)`
+    /// for the real body (its `loaded` is an open spec fn over the JSON model `jm(raw_delta)`; here it is uninterpreted over
+    /// the opaque JMap: weaker).  GAP: unit `block` needs `requires did_models(), inputs_bounded(jm(raw_delta))` (pack
+    /// entries are strings — `p.as_str().unwrap()`; parent indices < u32::MAX; bounded change records) for PANIC FREEDOM.
+    /// This shim has no `requires`: that the call inside `meld` does not panic on a hash-checked but otherwise arbitrary
+    /// block object is ASSUMED here, not proved (the other replica has already loaded the same object with the same function).
     /// The real body never mentions `self` (no lock is taken): `&self` reads and changes nothing.
     #[verifier::external_body]
     pub fn load_raw_delta(&self, b_id: &DeltaId, raw_delta: JMap) -> (ret: Result<Delta, VxError>)
@@ -262,7 +271,7 @@ pub open spec fn melded_pack(mine_applied: Set<Seq<char>>, other: Melda, k: Seq<
 /// witness form of (b)
 pub open spec fn melded_block_by(mine: Map<DeltaId, Delta>, other: Melda, k: Seq<char>, bytes: Seq<u8>, did: DeltaId, o: JMap, d: Delta) -> bool {
     other.deltas@.contains_key(did) && !mine.contains_key(did) && k == did_key(did@)
-        && fetched(other.data.adapter.store(), k, did@.1, o) && loaded(did@, o, d) && bytes == block_text(d)
+        && fetched(other.data.adapter.store(), k, did@.1, o) && loaded(did@, o, d) && is_block_bytes(d, bytes)
 }
 /// (b) a block loaded in `other` and unknown to this replica: the re-serialised text of the block parsed from `other`'s
 /// item, whose bytes hash to the digest in the block's name
@@ -360,7 +369,8 @@ pub proof fn lemma_meld_keeps_packs_addressed(before: Store, now: Store, mine_ap
 /// ROUND TRIP (to be discharged by unit `block`, NOT assumed anywhere here): re-serialising the block parsed from a stored
 /// item gives back the item's bytes.  Holds for items written by `commit` (serde_json prints what it parsed: sorted keys).
 pub open spec fn block_roundtrip(store: Store) -> bool {
-    forall|k: Seq<char>, dig: Seq<char>, o: JMap, id: DidV, d: Delta| #[trigger] fetched(store, k, dig, o) && #[trigger] loaded(id, o, d) ==> block_text(d) == store[k]
+    forall|k: Seq<char>, dig: Seq<char>, o: JMap, id: DidV, d: Delta, b: Seq<u8>|
+        #[trigger] fetched(store, k, dig, o) && #[trigger] loaded(id, o, d) && #[trigger] is_block_bytes(d, b) ==> b == store[k]
 }
 /// under the round-trip hypothesis a melded block is byte-identical to the other replica's item and named by the digest of its bytes
 pub proof fn lemma_melded_block_identical(mine: Map<DeltaId, Delta>, other: Melda, k: Seq<char>, bytes: Seq<u8>, did: DeltaId, o: JMap, d: Delta)
